@@ -384,7 +384,32 @@ def check_prime(case):
     return OK(n > 3, "prime" if S.is_prime(n) else "composite")
 
 
+def check_long(case):
+    """Every listing / counting form on a permutation of a few hundred points, with the
+    interpreter's default recursion budget available to the library."""
+    from ..lib import with_default_recursion_budget
+
+    p = tuple(case)
+    P = Perm(p)
+    status, rows = with_default_recursion_budget(lambda: _listing_checks(p, P))
+    if status == "recursion":
+        return BAD("long_recursion_error", {"length": len(p)})
+    for name, got, want in rows:
+        if got != want or type(got) is not type(want):
+            return BAD("long_method_" + name, {"length": len(p)})
+    status, vals = with_default_recursion_budget(lambda: (P.order(), P.count_fixed_points(), P.major_index(), P.count_cycles()))
+    import math
+
+    want_order = 1
+    for cyc in S.cycles(p):  # the order is the lcm of the cycle lengths (S.order iterates powers: too slow here)
+        want_order = want_order * len(cyc) // math.gcd(want_order, len(cyc))
+    if status == "recursion" or vals != (want_order, len(S.fixed_points(p)), sum(i + 1 for i in S.descents(p)), len(S.cycles(p))):
+        return BAD("long_order_fixed_major_cycles", {"length": len(p)})
+    return OK(True, "long", key=str(hash(p)))
+
+
 CHECKS = {
+    "long": check_long,
     "perm": check_perm,
     "holeyness": check_holeyness,
     "bijection": check_bijection,
@@ -520,6 +545,7 @@ def shard_generated(acc, shard, nshards, n_perm, n_bij, n_dist, n_equi, n_prime)
     engine.hyp_run(acc, "distribution", check_distribution, distribution_cases(), n_dist, shard)
     engine.hyp_run(acc, "equidistribution", check_equidistribution, equi_cases(), n_equi, shard)
     engine.hyp_run(acc, "prime", check_prime, st.integers(0, 10**9), n_prime, shard)
+    engine.hyp_run(acc, "long", check_long, st.integers(150, 300).flatmap(gen.perm_of).map(list), 2 if n_perm < 200 else 10, shard)
 
 
 def run(acc, tier):
